@@ -63,6 +63,8 @@ def load_known():
 
 def run_property(pid, tier="quick", seed=0):
     t0 = time.time()
+    import logging
+    logging.disable(logging.CRITICAL)
     sys.path.insert(0, ROOT)
     mod = importlib.import_module(f"props.{pid}")
     funcs = list(mod.FUNCS)
@@ -145,7 +147,7 @@ def run_property(pid, tier="quick", seed=0):
         bounded_rows.append(res)
         for f in fails:
             violations.append(dict(function="bounded:" + bname, name=f.get("name", bname), kind="bounded", status="failed",
-                                   backend="cpython", time=0, model=None, witness=f, bounded=True))
+                                   backend="cpython", time=0, model=None, witness=dict(f, replayed=True), bounded=True))
 
     # classification against the known-findings file
     new_violations = []
